@@ -41,15 +41,15 @@ def stripWs (ops : CharOps) (s : Str) : Str :=
 
 def replUnderscore (s : Str) : Str := s.map (fun c => if c = '_' then ' ' else c)
 
+/-- put one space in front of an already collapsed string. -/
+def consSpace : Str → Str
+  | ' ' :: rest => ' ' :: rest
+  | r => ' ' :: r
+
 /-- `re.sub(r' +', ' ', s)`. -/
 def collapseSpaces : Str → Str
   | [] => []
-  | c :: cs =>
-    if c = ' ' then
-      match collapseSpaces cs with
-      | ' ' :: rest => ' ' :: rest
-      | r => ' ' :: r
-    else c :: collapseSpaces cs
+  | c :: cs => if c = ' ' then consSpace (collapseSpaces cs) else c :: collapseSpaces cs
 
 /-- `s.split(':', 1)` when `':' in s`. -/
 def splitColon : Str → Option (Str × Str)
@@ -88,13 +88,14 @@ def assemble (site : Site) (ops : CharOps) (ns : Int) (prefixName suffix : Str) 
   let suffix := if site.capitalize then upperFirst ops suffix else suffix
   ⟨ns, suffix, if prefixName.isEmpty then suffix else prefixName ++ ':' :: suffix⟩
 
-/-- `splitname(title, defaultns)`; `none` = `KeyError` (unknown default namespace). -/
-def splitname (site : Site) (ops : CharOps) (title : Str) (defaultns : Int) : Option Result :=
-  let name := collapseSpaces (stripEdges ops (replUnderscore title))
-  let (name, defaultns) :=
-    match name with
-    | ':' :: rest => (stripEdges ops rest, (0 : Int))
-    | _ => (name, defaultns)
+/-- `if name.startswith(":"): name = _strip(name[1:]); defaultns = 0` -/
+def leadingColon (ops : CharOps) (name : Str) (defaultns : Int) : Str × Int :=
+  match name with
+  | ':' :: rest => (stripEdges ops rest, 0)
+  | _ => (name, defaultns)
+
+/-- the namespace split on the cleaned name. -/
+def splitCore (site : Site) (ops : CharOps) (name : Str) (defaultns : Int) : Option Result :=
   match splitColon name with
   | some (nsPart, partialName) =>
     match findNamespace site ops nsPart defaultns with
@@ -105,6 +106,11 @@ def splitname (site : Site) (ops : CharOps) (title : Str) (defaultns : Int) : Op
     match site.nsName defaultns with
     | none => none
     | some pfx => some (assemble site ops defaultns pfx name)
+
+/-- `splitname(title, defaultns)`; `none` = `KeyError` (unknown default namespace). -/
+def splitname (site : Site) (ops : CharOps) (title : Str) (defaultns : Int) : Option Result :=
+  let p := leadingColon ops (collapseSpaces (stripEdges ops (replUnderscore title))) defaultns
+  splitCore site ops p.1 p.2
 
 /-! ### table-driven `CharOps` for the driver (rows are generated from the running Python) -/
 
